@@ -62,7 +62,7 @@ theorem cycle_error_sound (C : ClassInfo) (S : List Spec) (e : Err) (he : e = .c
         omega
       · split at ha
         · rename_i e' hm; cases ha
-          rw [modPass_error _ hm] at hst; simp [stage] at hst
+          rcases modPass_error _ hm with h | h <;> rw [h] at hst <;> simp [stage] at hst
         · cases ha
   · refine ⟨pre, hpre, fun hgood => ?_⟩
     obtain ⟨order, hok⟩ := (orderPhase_ok_iff (nodes_closed (assignPhase_ok hpre))).mpr hgood
@@ -163,15 +163,21 @@ theorem two_modifiers_order_dependent :
     winnerOf (resolve ⟨[], []⟩ [wM1, wM2]) "p" = some (.user "M1") ∧
     winnerOf (resolve ⟨[], []⟩ [wM2, wM1]) "p" = some (.user "M2") := by decide
 
-/-- Why `final_reported_partial` needs `s.modifying = false` (a genuine defect of /repo, reachable from a Scenic
-program: `class Fin: parentOrientation[final]: ...` then `new Fin on region`): the modifying specifier `on`
-specifies the final property `parentOrientation` and resolution succeeds, while the non-modifying
-`in region` (same property) is refused. -/
-theorem final_by_modifier_unreported_witness :
-    winnerOf (resolve ⟨[("position", []), ("parentOrientation", []), ("baseOffset", []), ("contactTolerance", []),
-        ("onDirection", [])], ["parentOrientation"]⟩ [exOn]) "parentOrientation" = some (.user "On") ∧
+/-- Regression for the defect fixed in /repo commit 5766576b (the modifying pass had no `prop in finals` check):
+`class Fin: parentOrientation[final]: ...` then `new Fin on region` -- the modifying specifier `on` would specify
+the final property `parentOrientation` -- is refused exactly like the non-modifying `in region`, alone, after
+another specifier, and also when `on` would only *modify* nothing and specify `parentOrientation` at priority 3. -/
+theorem regression_final_by_modifier :
+    errOf (resolve ⟨[("position", []), ("parentOrientation", []), ("baseOffset", []), ("contactTolerance", []),
+        ("onDirection", [])], ["parentOrientation"]⟩ [exOn]) = some .finalProp ∧
+    errOf (resolve ⟨[("position", []), ("parentOrientation", []), ("baseOffset", []), ("contactTolerance", []),
+        ("onDirection", [])], ["parentOrientation"]⟩ [⟨"At", [("position", 1)], [], false, []⟩, exOn]) = some .finalProp ∧
     errOf (resolve ⟨[("position", []), ("parentOrientation", [])], ["parentOrientation"]⟩
         [⟨"In", [("position", 1), ("parentOrientation", 3)], [], false, []⟩]) = some .finalProp := by decide
+
+/-- non-vacuity: without the `final` declaration the same lists resolve -/
+example : winnerOf (resolve ⟨[("position", []), ("parentOrientation", []), ("baseOffset", []), ("contactTolerance", []),
+        ("onDirection", [])], []⟩ [exOn]) "parentOrientation" = some (.user "On") := by decide
 
 def wVis : Spec := ⟨"Visible/VisibleFrom", [("position", 3), ("_observingEntity", 1)], ["regionContainedIn"], false, []⟩
 def wNVis : Spec := ⟨"NotVisible/NotVisibleFrom", [("position", 3), ("_nonObservingEntity", 1)], ["regionContainedIn"], false, []⟩
